@@ -159,8 +159,10 @@ func checkC14(c *Ctx) {
 	c.Rule("C14.R1", "ring geometry, read off Check and Mark: each uses one window constant W, one shift a, one bit mask c and one index mask b on the sequence number; 2^a equals the bits of a block, c = 2^a - 1, the block count N is a power of two, b = N - 1, and W <= (N - 1) * 2^a (a block recycled by Mark must lie wholly below the window, otherwise a counter whose bit was wiped is accepted a second time) (constants of the SSA form)")
 	c.Rule("C14.R2", "Check and Mark agree: the same W, a, b and c in both, so the bit Mark sets is the bit Check tests and the counters Mark ignores as too old are those Check rejects (sibling cross-check)")
 	c.Decides("the constant geometry of the RFC 6479 ring bitmap and the agreement of its two users")
-	c.NotDecided("equivalence with a set-based filter over all counter histories (the run-time arithmetic of Mark's clearing loop, behaviour at 2^64 wrap-around); the window size being 448 rather than another admissible value")
+	c.NotDecided("equivalence with a set-based filter over all counter histories (that every block above the old top IS cleared, behaviour at 2^64 wrap-around); the window size being 448 rather than another admissible value")
+	c.Rule("C14.R3", "Mark forgets only what left the window: every store of zero into the ring goes to the slot of a block cur+1 .. new (cur, new the block numbers of the old top and of the argument), and the whole ring is zeroed only when new - cur >= N; block cur and below may hold counters still inside the window (E2 linear obligations at each zero store)")
 	ringRule(c, "C14.R1", "C14.R2")
+	ringClearRule(c, "C14.R3")
 }
 
 // ringRule is shared with C03.R6 (at-most-once delivery rests on the same geometry).
@@ -232,4 +234,115 @@ func ringRule(c *Ctx, r1, r2 string) {
 	} else {
 		c.Undecided(r2, "transport.SlidingWindow#Check~Mark", "shapes not comparable")
 	}
+}
+
+// ringClearRule (C14.R3, shared as part of C03.R6): Mark forgets only what left the window.
+//
+// When the top moves from block cur = wt >> a to block new = seq >> a, exactly the ring slots of the
+// blocks cur+1 .. new may be zeroed: each of them lies above the old top, so nothing in it was ever
+// marked. Block cur and everything below it may still hold counters inside the window. The rule reads
+// cur and new off the SSA (the shifts of the stored top and of the argument) and gives the linear
+// engine (E2) two obligations at every store of zero into the ring, for the unmasked index e of the
+// slot (e & mask or e % N):   cur + 1 <= e   and   e <= new.   A store that zeroes the whole ring needs
+// new - cur >= N. The engine proves them from the loop bound, the clamp of the distance and the
+// unsignedness of the loop counter; it does not execute anything.
+func ringClearRule(c *Ctx, rule string) {
+	P := c.P
+	mrk := P.Func("transport", "(*SlidingWindow).Mark")
+	fBlocks := P.Field("transport", "SlidingWindow", "blocks")
+	fTop := P.Field("transport", "SlidingWindow", "wt")
+	if mrk == nil || fBlocks == nil || fTop == nil {
+		c.Undecided(rule, "transport.(*SlidingWindow).Mark#clearing", "function or fields not found")
+		return
+	}
+	rs := ringShapeOf(mrk)
+	if len(rs.shifts) != 1 || rs.arrLen == 0 {
+		c.Undecided(rule, FuncName(mrk)+"#clearing", "ring-bitmap shape not recognised: "+rs.String())
+		return
+	}
+	shift, N := rs.shifts[0], rs.arrLen
+	// cur and new
+	var curV, newV []ssa.Value
+	eachInstr(mrk, func(ins ssa.Instruction) {
+		b, ok := ins.(*ssa.BinOp)
+		if !ok {
+			return
+		}
+		isShift := false
+		if b.Op == token.SHR {
+			if k, ok := constInt(b.Y); ok && k == shift {
+				isShift = true
+			}
+		}
+		if b.Op == token.QUO {
+			if k, ok := constInt(b.Y); ok && k == int64(1)<<uint(shift) {
+				isShift = true
+			}
+		}
+		if !isShift {
+			return
+		}
+		x := lookThrough(b.X)
+		if len(mrk.Params) == 2 && x == ssa.Value(mrk.Params[1]) {
+			newV = append(newV, b)
+		} else if lastField(x) == fTop {
+			curV = append(curV, b)
+		}
+	})
+	if len(curV) == 0 || len(newV) == 0 {
+		c.Undecided(rule, FuncName(mrk)+"#clearing", "the block numbers of the stored top and of the argument were not found in Mark")
+		return
+	}
+	pick := func(cands []ssa.Value, at ssa.Instruction) ssa.Value {
+		for _, v := range cands {
+			if ins, ok := v.(ssa.Instruction); ok && dominatesInstr(ins, at) {
+				return v
+			}
+		}
+		return nil
+	}
+	nStores := 0
+	gen := func(a *boundsAn, ins ssa.Instruction) []boundsOb {
+		if ins.Parent() != mrk {
+			return nil
+		}
+		st, ok := ins.(*ssa.Store)
+		if !ok {
+			return nil
+		}
+		// whole ring zeroed
+		if fa, ok := st.Addr.(*ssa.FieldAddr); ok && fieldOf(fa.X.Type(), fa.Field) == fBlocks {
+			cur, nw := pick(curV, ins), pick(newV, ins)
+			nStores++
+			if cur == nil || nw == nil {
+				return []boundsOb{{ins, "whole ring cleared only when the top moved at least a ring ahead (the block numbers of the old top and of the argument are not both computed before this store)", linConst(-1)}}
+			}
+			return []boundsOb{{ins, "whole ring cleared only when the top moved at least a ring ahead", a.formOf(nw).sub(a.formOf(cur)).sub(linConst(N))}}
+		}
+		ia, ok := st.Addr.(*ssa.IndexAddr)
+		if !ok || lastField(ia.X) != fBlocks {
+			return nil
+		}
+		if k, isC := constInt(st.Val); !isC || k != 0 {
+			return nil
+		}
+		nStores++
+		e := ia.Index
+		if b, ok := strip(e).(*ssa.BinOp); ok {
+			if k, isC := constInt(b.Y); isC && ((b.Op == token.AND && k == N-1) || (b.Op == token.REM && k == N)) {
+				e = b.X
+			}
+		}
+		cur, nw := pick(curV, ins), pick(newV, ins)
+		if cur == nil || nw == nil {
+			return []boundsOb{{ins, "cleared slot belongs to a block above the old top", linConst(-1)}}
+		}
+		ef := a.formOf(e)
+		return []boundsOb{
+			{ins, "cleared slot belongs to a block above the old top", ef.sub(a.formOf(cur)).sub(linConst(1))},
+			{ins, "cleared slot belongs to a block not above the new top", a.formOf(nw).sub(ef)},
+		}
+	}
+	rangeRule(c, rule, []*ssa.Function{mrk}, gen, "Mark forgets counters that may still be inside the window (a genuine packet replayed from that band is accepted a second time)", "zero stores into the ring in Mark", 1)
+	_ = nStores
 }
